@@ -286,7 +286,7 @@ Definition srun (s : sstate) (ops : list sop) : sstate := fold_left (fun st o =>
 (** * 6. Request trees: alias chase with lineage folding                *)
 
 (* a message as the chase sees it; names are small numbers, qtype is A *)
-Inductive rtype := TAddr | TCname (target : N) | TSoa (minttl : Z) | TOther.
+Inductive rtype := TAddr | TCname (target : N) | TSoa (minttl : Z) | TOther (tag : N).
 Record mrr := mk_mrr { m_owner : N; m_ttl : Z; m_type : rtype }.
 Record msg := mk_msg { g_q : N; g_rcode : N; g_an : list mrr; g_ns : list mrr }.
 
@@ -295,7 +295,7 @@ Definition rtype_eqb (a b : rtype) : bool :=
   | TAddr, TAddr => true
   | TCname x, TCname y => (x =? y)%N
   | TSoa x, TSoa y => x =? y
-  | TOther, TOther => true
+  | TOther x, TOther y => (x =? y)%N
   | _, _ => false
   end.
 (* dns.IsDuplicate ignores the TTL *)
@@ -345,7 +345,9 @@ Definition merge_ns (ns extra : list mrr) : list mrr :=
 Definition servfail_of (m : msg) : msg := mk_msg (g_q m) 2 [] [].
 
 (* a cached entry together with the message it retains *)
-Record centry := mk_centry { c_entry : entry; c_msg : msg }.
+(* [c_lin] is ghost state: the ends of every piece and lease in the entry's
+   transitive lineage (erased for execution; Run.v fills it with []) *)
+Record centry := mk_centry { c_entry : entry; c_msg : msg; c_lin : list Z }.
 Definition cstore := list (N * centry).          (* keyed by name *)
 Fixpoint cs_get (s : cstore) (k : N) : option centry :=
   match s with
@@ -365,39 +367,105 @@ Fixpoint sc_get (s : scripts) (k : N) : option script :=
   | (k', e) :: r => if (k' =? k)%N then Some e else sc_get r k
   end.
 
+(* a subtree cut (RFC 8020) covering a name: expiry and the proof it serves *)
+Record ccut := mk_ccut { k_expires : Z; k_ns : list mrr }.
+Definition cuts := list (N * ccut).
+Fixpoint ct_get (s : cuts) (k : N) : option ccut :=
+  match s with
+  | [] => None
+  | (k', e) :: r => if (k' =? k)%N then Some e else ct_get r k
+  end.
+
 (* world threaded through one request tree.  [w_wit]: clock readings taken by
    NewCacheEntryWithKey for the entries admitted in this tree, in order
-   (environment input); [w_adm]: what was admitted (output). *)
+   (environment input); [w_adm]: what was admitted, with the lineage it was
+   composed from (output + ghost); [w_hits]: every piece served out of the
+   cache with the TTL shown (ghost log). *)
 Record world := mk_world {
   w_store : cstore;
+  w_cuts : cuts;
   w_next : N;
   w_wit : list Z;
-  w_adm : list (N * entry)
+  w_adm : list (N * entry * list Z);
+  w_hits : list (entry * Z * Z)      (* entry, TTL shown, clock reading *)
 }.
 
 Definition empty_msg (q : N) : msg := mk_msg q 2 [] [].
+
+(* the three ways a request tree changes the world *)
+Definition w_drop (w : world) (q : N) : world :=
+  mk_world (cs_remove (w_store w) q) (w_cuts w) (w_next w) (w_wit w) (w_adm w) (w_hits w).
+Definition w_log (w : world) (e : entry) (t now : Z) : world :=
+  mk_world (w_store w) (w_cuts w) (w_next w) (w_wit w) (w_adm w) (w_hits w ++ [(e, t, now)]).
+Definition w_admit (w : world) (q : N) (stored ttl : Z) (cut : option Z) (m : msg) (lin : list Z) (wit' : list Z) : world :=
+  let e := mk_entry (w_next w) stored ttl cut false in
+  mk_world (cs_set (w_store w) q (mk_centry e m lin)) (w_cuts w) (w_next w + 1) wit'
+           (w_adm w ++ [(q, e, lin)]) (w_hits w).
+
+(* result of serving a (sub-)query: world, request meta after, reply, and the
+   ghost lineage folded into that meta by this (sub-)tree *)
+Definition tres : Type := world * option Z * msg * list Z.
+(* a sub-query server: fresh forked meta, given chase depth and name *)
+Definition sub_t : Type := world -> Z -> N -> tres.
 
 Section Tree.
   Variable sc : scripts.
   Variable now : Z.         (* every clock reading inside the tree (see Run.v) *)
 
-  Definition tres : Type := world * option Z * msg.
+  (* additionalAnswer's loop: [m] outer message, [target] next name,
+     [targets] visited, [cd] remaining cnameDepth, [lin] lineage so far *)
+  Fixpoint chase (rec : sub_t) (n : nat) (w : world) (meta : option Z) (m : msg) (lin : list Z)
+           (depth : Z) (target : N) (targets : list N) (cd : Z) {struct n} : tres :=
+    match n with
+    | O => (w, meta, m, lin)
+    | S n' =>
+      if existsb (N.eqb target) targets then (w, meta, servfail_of m, lin)
+      else
+        (* internalExchange: sub-query under a forked meta *)
+        let '(w1, child, resp, clin) := rec w (depth + 1) target in
+        let used := negb (match g_an resp, g_ns resp with [], [] => true | _, _ => false end) in
+        let m1 := if used then mk_msg (g_q m) (g_rcode m) (g_an m ++ g_an resp) (merge_ns (g_ns m) (g_ns resp)) else m in
+        (* lineage.inherit() *)
+        let meta1 := if used then bound meta child else meta in
+        let lin1 := if used then lin ++ clin else lin in
+        if (g_rcode resp =? 3)%N then
+          (w1, bound meta1 child, mk_msg (g_q m1) 3 (g_an m1) (g_ns m1), lin ++ clin)
+        else
+          let target' := if used then last_cname (g_an resp) else Some target in
+          let child_flag := used && existsb is_cname (g_an resp) in
+          match target' with
+          | Some t' =>
+              if (t' =? g_q m)%N then (w1, meta1, servfail_of m1, lin1)
+              else if child_flag && (0 <? cd - 1) && negb (existsb is_addr (g_an resp))
+                   then chase rec n' w1 meta1 m1 lin1 depth t' (targets ++ [target]) (cd - 1)
+                   else (w1, meta1, m1, lin1)
+          | None => (w1, meta1, m1, lin1)     (* target = "": never equals the question *)
+          end
+    end.
 
-  (* cache miss: downstream handler, then ResponseWriter.WriteMsg.
-     [additional] is additionalAnswer at this nesting level. *)
-  Definition miss_path (additional : world -> option Z -> msg -> tres)
-             (w : world) (meta : option Z) (depth : Z) (q : N) : tres :=
+  (* additionalAnswer *)
+  Definition additional (rec : sub_t) (w : world) (meta : option Z) (m : msg) (lin : list Z) (depth : Z) : tres :=
+    if (g_rcode m =? 3)%N then (w, meta, m, lin)
+    else match scan_answers (g_q m) (g_an m) None with
+         | None => (w, meta, servfail_of m, lin)
+         | Some None => (w, meta, m, lin)
+         | Some (Some t) => chase rec 11%nat w meta m lin depth t [] 10
+         end.
+
+  (* cache miss: downstream handler, then ResponseWriter.WriteMsg *)
+  Definition miss_path (rec : sub_t) (w : world) (meta : option Z) (depth : Z) (q : N) : tres :=
     match sc_get sc q with
-    | None => (w, meta, empty_msg q)
+    | None => (w, meta, empty_msg q, [])
     | Some s =>
         (* the downstream folds its lease into the request meta, then writes *)
         let meta0 := bound meta (sc_cut s) in
+        let lin0 := match sc_cut s with Some c => [c] | None => [] end in
         let res := sc_msg s in
-        if (g_rcode res =? 2)%N then (w, meta0, res)
+        if (g_rcode res =? 2)%N then (w, meta0, res, lin0)
         else
-          let '(w1, meta1, res1) :=
-            if depth <? max_cname_chase_depth then additional w meta0 res else (w, meta0, res) in
-          if (g_rcode res1 =? 2)%N then (w1, meta1, res1)
+          let '(w1, meta1, res1, lin1) :=
+            if depth <? max_cname_chase_depth then additional rec w meta0 res lin0 depth else (w, meta0, res, lin0) in
+          if (g_rcode res1 =? 2)%N then (w1, meta1, res1, lin1)
           else
             let filtered := filter_answer res1 in
             let cls := msg_class res1 in
@@ -405,70 +473,48 @@ Section Tree.
               match w_wit w1 with
               | stored :: wit' =>
                   let ttl := admit_ttl cls (msg_rrs filtered) 0 false 0 in
-                  let e := mk_entry (w_next w1) stored ttl meta1 false in
-                  (mk_world (cs_set (w_store w1) q (mk_centry e filtered)) (w_next w1 + 1) wit'
-                            (w_adm w1 ++ [(q, e)]), meta1, res1)
-              | [] => (w1, meta1, res1)
+                  (w_admit w1 q stored ttl meta1 filtered lin1 wit', meta1, res1, lin1)
+              | [] => (w1, meta1, res1, lin1)
               end
-            else (w1, meta1, res1)
+            else (w1, meta1, res1, lin1)
     end.
 
-  (* ServeDNS for name [q] at chase depth [depth] with request meta [meta];
-     returns the world, the meta after, and the reply.  [fuel] bounds the
-     nesting of sub-queries. *)
+  (* subtree cut rung (lookupNXDomainCut / handleNXDomainCutHit), then the miss path *)
+  Definition cut_or_miss (rec : sub_t) (w : world) (meta : option Z) (depth : Z) (q : N) : tres :=
+    match ct_get (w_cuts w) q with
+    | Some c =>
+        if cut_live (k_expires c) now then
+          match cut_serve (k_expires c) now with
+          | Some t => (w, bound meta (Some (k_expires c)), mk_msg q 3 [] (set_ttls t (k_ns c)), [k_expires c])
+          | None => miss_path rec w meta depth q
+          end
+        else miss_path rec w meta depth q
+    | None => miss_path rec w meta depth q
+    end.
+
+  (* Cache.ServeDNS for [q] at chase depth [depth] with request meta [meta] *)
+  Definition serve_body (rec : sub_t) (w : world) (meta : option Z) (depth : Z) (q : N) : tres :=
+    match cs_get (w_store w) q with
+    | Some ce =>
+        if remaining (c_entry ce) now <=? 0
+        then (* expired: PositiveCache.Get deletes it; continue as a miss *)
+          cut_or_miss rec (w_drop w q) meta depth q
+        else
+          (* handleCacheHit: ToMsg, bind, chase *)
+          let e := c_entry ce in
+          let t := shown_ttl e now in
+          let m := mk_msg q (g_rcode (c_msg ce)) (set_ttls t (g_an (c_msg ce))) (set_ttls t (g_ns (c_msg ce))) in
+          let meta1 := bound meta (Some (bound_entry e)) in
+          let lin1 := bound_entry e :: c_lin ce in
+          let w1 := w_log w e t now in
+          if depth <? max_cname_chase_depth then additional rec w1 meta1 m lin1 depth else (w1, meta1, m, lin1)
+    | None => cut_or_miss rec w meta depth q
+    end.
+
+  (* [fuel] bounds the nesting of sub-queries *)
   Fixpoint serve_dns (fuel : nat) (w : world) (meta : option Z) (depth : Z) (q : N) : tres :=
     match fuel with
-    | O => (w, meta, empty_msg q)
-    | S fuel' =>
-      (* additionalAnswer's loop: [m] outer message, [target] next name,
-         [targets] visited, [cd] remaining cnameDepth *)
-      let chase :=
-        fix loop (n : nat) (w : world) (meta : option Z) (m : msg) (target : N)
-                 (targets : list N) (cd : Z) {struct n} : tres :=
-          match n with
-          | O => (w, meta, m)
-          | S n' =>
-            if existsb (N.eqb target) targets then (w, meta, servfail_of m)
-            else
-              (* internalExchange: sub-query under a forked meta *)
-              let '(w1, child, resp) := serve_dns fuel' w None (depth + 1) target in
-              let used := negb (match g_an resp, g_ns resp with [], [] => true | _, _ => false end) in
-              let m1 := if used then mk_msg (g_q m) (g_rcode m) (g_an m ++ g_an resp) (merge_ns (g_ns m) (g_ns resp)) else m in
-              let meta1 := if used then bound meta child else meta in
-              if (g_rcode resp =? 3)%N then
-                (w1, bound meta1 child, mk_msg (g_q m1) 3 (g_an m1) (g_ns m1))
-              else
-                let target' := if used then last_cname (g_an resp) else Some target in
-                let child_flag := used && existsb is_cname (g_an resp) in
-                match target' with
-                | Some t' =>
-                    if (t' =? g_q m)%N then (w1, meta1, servfail_of m1)
-                    else if child_flag && (0 <? cd - 1) && negb (existsb is_addr (g_an resp))
-                         then loop n' w1 meta1 m1 t' (targets ++ [target]) (cd - 1)
-                         else (w1, meta1, m1)
-                | None => (w1, meta1, m1)     (* target = "": never equals the question *)
-                end
-          end in
-      let additional (w : world) (meta : option Z) (m : msg) : tres :=
-        if (g_rcode m =? 3)%N then (w, meta, m)
-        else match scan_answers (g_q m) (g_an m) None with
-             | None => (w, meta, servfail_of m)
-             | Some None => (w, meta, m)
-             | Some (Some t) => chase 11%nat w meta m t [] 10
-             end in
-      match cs_get (w_store w) q with
-      | Some ce =>
-          if remaining (c_entry ce) now <=? 0
-          then (* expired: PositiveCache.Get deletes it; continue as a miss *)
-            miss_path additional (mk_world (cs_remove (w_store w) q) (w_next w) (w_wit w) (w_adm w)) meta depth q
-          else
-            (* handleCacheHit: ToMsg, bind, chase *)
-            let e := c_entry ce in
-            let t := shown_ttl e now in
-            let m := mk_msg q (g_rcode (c_msg ce)) (set_ttls t (g_an (c_msg ce))) (set_ttls t (g_ns (c_msg ce))) in
-            let meta1 := bound meta (Some (bound_entry e)) in
-            if depth <? max_cname_chase_depth then additional w meta1 m else (w, meta1, m)
-      | None => miss_path additional w meta depth q
-      end
+    | O => (w, meta, empty_msg q, [])
+    | S fuel' => serve_body (fun w d t => serve_dns fuel' w None d t) w meta depth q
     end.
 End Tree.
